@@ -3,11 +3,11 @@ CONSTANTS
   MinBodies = 1
   MaxBodies = 3
   JTypes <- MovJ
-  Axes <- Ax2
-  Offsets <- K_Off1
+  Axes <- Ax13
+  Offsets <- D_OffAx1
   Rots <- R0
   Anchors <- K_Anc1
-  SitePos <- K_Site1
+  SitePos <- V000
   SiteRots <- K_SRot1
   Masses <- One1
   Inertias <- K_Inr1
@@ -27,7 +27,11 @@ CONSTANTS
   TenRanges <- Rng0
   TenDamps <- One0
   TenArms <- D_TArm1
+  TenZero <- OnlyTz
+  SpPairs <- D_Sp3
+  SpArms <- D_SpArm
   Level = 2
+  Tie = FALSE
   Rand = FALSE
 INVARIANT TypeOK
 INVARIANT FramesProper
@@ -40,4 +44,6 @@ INVARIANT KineticIsQuadratic
 INVARIANT BiasAtRestIsGravity
 INVARIANT SlideBiasVelFree
 INVARIANT VelIsRecursive
+INVARIANT SpatialJacIsDerivative
+INVARIANT SpatialMassOK
 CHECK_DEADLOCK FALSE
